@@ -731,3 +731,77 @@ def c03_programs(tier, sd):
         out.append({"tag": "standalone", "desc": "standalone fields %s" % (cl,), "prog": pr, "world": world,
                     "ops": [["set", ["f0"], 9], ["set", ["f1"], -7], ["set", ["f2"], 2], cl, ["set", ["f1"], 100], cl]})
     return out
+
+
+# ------------------------------------------------------------------------------------------ C05 soft constraints
+def c05_programs(tier, sd):
+    rnd = random.Random(sd)
+    out = []
+    a, b, c, n = F("a"), F("b"), F("c"), F("n")
+    S = lambda e: ["soft", e]
+    fields = [fld("a", ("u", 4)), fld("b", ("u", 4)), fld("c", ("s", 4)), fld("n", ("u", 4), False)]
+    bodies = [
+        [S(["==", a, lit(1)]), S(["==", a, lit(2)])],
+        [S(["==", a, lit(1)]), S(["==", a, lit(2)]), S(["==", a, lit(3)])],
+        [S(["<", a, lit(5)]), S([">", a, lit(10)]), S(["==", a, lit(3)])],
+        [S(["<=", a, b]), S(["<=", b, c]), S(["<", c, a]), E([">=", c, lit(0)])],                      # conflict only in threes
+        [E(["!=", a, lit(7)]), S(["==", a, b]), S(["==", b, lit(7)])],
+        [E(["<", a, lit(4)]), S([">", a, lit(8)])],                                                     # soft against hard
+        [E(["<", a, lit(4)]), S([">", a, lit(8)]), S(["==", b, lit(2)]), S(["==", a, lit(3)])],
+        [S(["==", a, lit(1)]), ["if", [[["<", b, lit(8)], [S(["==", a, lit(2)])]]], [S(["==", a, lit(3)])]]],
+        [["if", [[["==", n, lit(1)], [S(["==", a, lit(2)]), E([">", b, lit(3)])]]], [S(["==", a, lit(3)])]], S(["<", a, lit(3)])],
+        [["implies", [">", b, lit(5)], [S(["==", a, lit(9)])]], S(["==", a, lit(4)]), S(["==", b, lit(6)])],
+        [["if", [[["<", b, lit(8)], [["implies", [">", c, lit(0)], [S(["==", a, lit(2)])]]]]], None], S(["==", a, lit(5)]), S(["==", c, lit(1)])],
+        [S(["in", a, [["rng", lit(2), lit(6)]]]), S(["in", a, [["rng", lit(5), lit(9)]]]), S(["!=", a, lit(5)]), S(["!=", a, lit(6)])],
+        [S(["==", ["+", a, b], ["ulit", 9, 4]]), S(["==", a, lit(15)]), S(["==", b, lit(15)])],
+        [E(["<", a, b]), S(["==", b, lit(0)])],
+        [S(["==", a, lit(1)]), S(["==", b, lit(2)]), S(["==", c, lit(-3)])],                            # no conflict: all honoured
+        [["if", [[["==", n, lit(1)], [S(["==", a, lit(2)])]], [["==", n, lit(2)], [S(["==", a, lit(3)])]]], [S(["==", a, lit(4)])]], S(["==", a, lit(5)])],
+        # hard statement followed by a soft one inside guarded bodies (and the other way round)
+        [["if", [[["<", b, lit(8)], [E([">", b, lit(3)]), S(["==", a, lit(2)])]]], [E(["<", b, lit(12)]), S(["==", a, lit(3)])]], S(["==", a, lit(1)])],
+        [["implies", [">", c, lit(0)], [E(["!=", a, lit(0)]), S(["==", a, lit(4)]), E(["!=", b, lit(1)])]], S(["==", a, lit(0)])],
+        [["if", [[["==", n, lit(1)], [E(["<", a, lit(9)])]], [["<", b, lit(5)], [E([">", a, lit(1)]), S(["==", a, b])]]], [S(["==", a, lit(7)]), E(["!=", b, lit(7)])]]],
+        [["if", [[["<", b, lit(8)], [["if", [[[">", c, lit(0)], [E(["!=", a, lit(3)]), S(["==", a, lit(2)])]]], [S(["==", a, lit(6)])]]]]], [S(["==", a, lit(5)])]], S(["==", a, lit(3)])],
+    ]
+    inlines = [[], [S(["==", a, lit(6)])], [S(["==", a, lit(1)]), E(["!=", b, lit(0)])], [S(["==", b, lit(9)]), S(["==", a, b])]]
+    for bi, body in enumerate(bodies):
+        for il in inlines:
+            if tier == "quick" and il and bi % 2 == 1 and len(il) > 1:
+                continue
+            pr = one_class(fields, body)
+            ops = []
+            for nv in (0, 1, 2):
+                ops.append(["set", ["top", "n"], nv])
+                ops.append(["randomize_with", ["top"], il] if il else ["randomize", ["top"]])
+                ops.append(["randomize", ["top"]])
+            out.append({"tag": "soft", "desc": "softs %s inline %s" % (body, il), "prog": pr, "world": [["top", "obj", "Top"]],
+                        "ops": ops, "soft_order_fixed": True})
+    # softs in several class blocks (order between blocks not fixed by the property): maximality/guards only
+    for body1, body2 in ((bodies[0], [S(["==", a, lit(3)]), S(["==", b, lit(1)])]), (bodies[2], bodies[5]), (bodies[7], bodies[1])):
+        pr = one_class(fields, body1, extra_blocks=[["cb1", "c", body2]])
+        out.append({"tag": "soft_multi_block", "desc": "softs in two blocks %s | %s" % (body1, body2), "prog": pr,
+                    "world": [["top", "obj", "Top"]], "ops": [["set", ["top", "n"], 1], ["randomize", ["top"]],
+                                                              ["randomize_with", ["top"], [S(["==", a, lit(6)])]], ["randomize", ["top"]]],
+                    "soft_order_fixed": False})
+    # seeded
+    for i in range(40 if tier == "quick" else 500):
+        body = []
+        for _ in range(rnd.randint(2, 4)):
+            f = rnd.choice([a, b])
+            k = rnd.random()
+            e = ["==", f, lit(rnd.randint(0, 15))] if k < 0.5 else [rnd.choice(["<", ">", "!="]), f, rnd.choice([lit(rnd.randint(0, 15)), b if f is a else a])]
+            st = S(e)
+            r = rnd.random()
+            if r < 0.25:
+                st = ["if", [[[rnd.choice(["<", ">"]), rnd.choice([b, c, n]), lit(rnd.randint(0, 8))], [st]]], [S(["==", a, lit(rnd.randint(0, 15))])] if rnd.random() < 0.5 else None]
+            elif r < 0.4:
+                st = ["implies", [">", c, lit(rnd.randint(-8, 7))], [st]]
+            body.append(st)
+        if rnd.random() < 0.6:
+            body.insert(rnd.randrange(len(body) + 1), E([rnd.choice(["<", ">", "!="]), a, lit(rnd.randint(0, 15))]))
+        pr = one_class(fields, body)
+        il = rnd.choice(inlines)
+        out.append({"tag": "soft_seeded", "desc": "seeded soft program #%d" % i, "prog": pr, "world": [["top", "obj", "Top"]],
+                    "ops": [["set", ["top", "n"], rnd.randint(0, 2)], ["randomize", ["top"]], ["randomize_with", ["top"], il], ["randomize", ["top"]]],
+                    "soft_order_fixed": True})
+    return out
